@@ -35,6 +35,7 @@ CReset(e) ==
    wClosed |-> 0,
    srcErrSeen |-> FALSE,       \* some source returned a non-EOF error
    term |-> "none",            \* terminal result seen by the consumer
+   retry |-> IF "retry" \in DOMAIN e THEN e.retry ELSE FALSE,   \* the consumer reads on after a source error (transient errors)
    closed |-> FALSE]           \* wrapper.Close returned
 
 Dummy == CReset([kind |-> "limit", N |-> 0, lens |-> <<0>>, closable |-> <<TRUE>>, wcloser |-> FALSE])
@@ -68,7 +69,7 @@ Deliver(c, n, err, ok) ==
   ELSE IF err = "other" THEN Bad("unexpected error value")
   ELSE IF err = "closed" THEN [c EXCEPT !.delivered = d, !.term = err]   \* io.ErrClosedPipe from a stopped/closed tee: judged at the end
   ELSE IF c.kind = "tee" /\ c.written # d THEN Bad("tee writer did not receive exactly the bytes returned")
-  ELSE [c EXCEPT !.delivered = d, !.term = IF err = "nil" THEN c.term ELSE err]
+  ELSE [c EXCEPT !.delivered = d, !.term = IF err = "nil" \/ (err = "srcerr" /\ c.retry) THEN c.term ELSE err]
 
 CRead(c, e) ==
   IF c.term # "none" THEN c           \* reads after the terminal error are not constrained
